@@ -92,6 +92,21 @@ def directed_handle_histories():
                     bl = [{"seed": 1, "len": size0}, {"seed": 2, "len": 4}, {"seed": 3, "len": 2}] if act["op"] != "truncate" else [{"seed": 1, "len": size0}, {"seed": 2, "len": 2}]
                     hs.append({"config": {"rs": [1, 3, 20][k % 3], "cache": "file"}, "blobs": bl, "obs": [], "calls": calls, "_directed": True})
                     k += 1
+    # every combination of O_APPEND with O_TRUNC / O_CREATE / access mode: each write goes to the end wherever the cursor was put
+    # (seek back, growing truncate) - the flags are decoded once, at OpenFile
+    for acc in (hist.O_WRONLY, hist.O_RDWR):
+        for extra in (0, hist.O_TRUNC, hist.O_CREATE, hist.O_TRUNC | hist.O_CREATE):
+            for size0 in (0, 10):
+                fl = acc | hist.O_APPEND | extra
+                calls = [{"op": "initialize"}, {"op": "createfile", "name": "/f", "blob": 0}, {"op": "open", "h": "a", "name": "/f", "flags": fl, "perm": 0o644},
+                         {"op": "write", "h": "a", "data": base64.b64encode(pat(2, 0, 4)).decode()}, {"op": "seek", "h": "a", "whence": 0, "off": 0},
+                         {"op": "write", "h": "a", "data": base64.b64encode(pat(3, 0, 2)).decode()}, {"op": "seek", "h": "a", "whence": 1, "off": 0},
+                         {"op": "truncate", "h": "a", "off": 20}, {"op": "seek", "h": "a", "whence": 0, "off": 3},
+                         {"op": "writestring", "h": "a", "data": base64.b64encode(pat(4, 0, 3)).decode()}, {"op": "seek", "h": "a", "whence": 1, "off": 0},
+                         {"op": "close", "h": "a"}, {"op": "readfile", "name": "/f"}, {"op": "stat", "name": "/f"}]
+                hs.append({"config": {"rs": [1, 3, 20][k % 3], "cache": "file"}, "blobs": [{"seed": 1, "len": size0}, {"seed": 2, "len": 4}, {"seed": 3, "len": 2}, {"seed": 4, "len": 3}],
+                           "obs": [], "calls": calls, "_directed": True})
+                k += 1
     return hs
 
 
